@@ -180,6 +180,7 @@ type Step struct {
 	Txs     []AbsTx `json:"txs"`
 	Exp     []SID   `json:"exp"`
 	Post    *Post   `json:"post"`
+	BDefect string  `json:"bdefect"` // block-level defect: payout+1, payout-1, payout-split
 }
 
 // ---------------------------------------------------------------------------
